@@ -670,7 +670,16 @@ class _resolve_called_lambdas(ast.NodeTransformer):
                     for k in node.keywords
                 ],
             )
-        return self.generic_visit(node)
+        new_node = cast(ast.Call, self.generic_visit(node))
+        # What is called turned out to be a lambda whose parameters got new names (it came in
+        # as an argument, or a called lambda returned it): the keywords of the call follow.
+        renamed = getattr(new_node.func, "_renamed_parameters", None)
+        if isinstance(new_node.func, ast.Lambda) and renamed:
+            new_node.keywords = [
+                ast.keyword(arg=renamed.get(k.arg, k.arg), value=k.value)
+                for k in new_node.keywords
+            ]
+        return new_node
 
     def visit_Lambda(self, node: ast.Lambda) -> Any:
         """A lambda that is not being called: its own parameters hide the arguments we are
@@ -705,7 +714,11 @@ class _resolve_called_lambdas(ast.NodeTransformer):
         new_body = self.visit(node.body)
         self._arg_map_list.pop()
 
-        return ast.Lambda(args=new_args, body=new_body)
+        new_lambda = ast.Lambda(args=new_args, body=new_body)
+        new_lambda._renamed_parameters = {  # type: ignore
+            old: new.id for old, new in own_args.items() if old != new.id
+        }
+        return new_lambda
 
     def _name_not_in_arguments(self, name: str) -> str:
         "A name for something bound inside the body that no argument being substituted uses"
